@@ -291,7 +291,8 @@ def judge (sc : Scenario) (evs : List (Proc × Ev)) : List String :=
       let o := { o with returnedSubs := i :: o.returnedSubs }
       -- C06: own error is returned if one occurred and the subscription was not also cancelled
       if o.ownFailed.contains i && !o.cancelled.contains i && r != "own" && r != "replay" then
-        { o with viol := s!"C06:sub{i} failed but Subscribe returned {r}" :: o.viol }
+        -- (C17 as well: "… and gets the error from Subscribe")
+        { o with viol := s!"C17:sub{i} failed but Subscribe returned {r}" :: s!"C06:sub{i} failed but Subscribe returned {r}" :: o.viol }
       else if r != "nil" && r != "own" && r != "replay" && r != "closed" then
         { o with viol := s!"C06:Subscribe of sub{i} returned {r}" :: o.viol }
       else o
@@ -325,6 +326,21 @@ def judge (sc : Scenario) (evs : List (Proc × Ev)) : List String :=
       some s!"C17:Publish of pub{pr.1} returned nil although its Put call returned an error"
     else none
   (o.viol ++ perSub ++ stray ++ unaccepted ++ wrongRet).reverse
+
+/-- "every Send is followed by a Flush before Joe goes idle", for the Sends of a replay inside Joe's subscription step:
+a replay that returned no error and sent something ends with a Flush (a replay that failed was abandoned at the
+failing call) -/
+def judgeReplayFlush (sc : Scenario) (evs : List (Proc × Ev)) : List String :=
+  if !(sc.rep.startsWith "finite" || sc.rep.startsWith "valid") then [] else
+  evs.filterMap fun pe =>
+    let e := match pe.2 with | .at _ e => e | e => e
+    match e with
+    | .lab (.subAccept i calls .ok) =>
+      let sent := calls.any fun c => match c with | .send _ _ => true | _ => false
+      let flushedLast := match calls.getLast? with | some (.flush _) => true | _ => false
+      if sent && !flushedLast then some s!"C03:the replay for sub{i} sent messages and returned without a Flush after the last one"
+      else none
+    | _ => none
 
 /-- publications that violate the replayer's ID mode must be rejected by Put, all others accepted -/
 def judgePuts (sc : Scenario) (evs : List (Proc × Ev)) : List String :=
@@ -365,7 +381,7 @@ def joe (args : List String) : String × String :=
       let cfg : Cfg := { subTopics := fun i => (sc.subTopics[i]?).getD [], pubTopics := fun p => (sc.pubTopics[p]?).getD [] }
       let init : St := GoSSE.Model.Joe.init (sc.rep != "none")
       let v := validate cfg init evs 0
-      let viol := factsTag facts ++ judge sc evs ++ judgePuts sc evs
+      let viol := factsTag facts ++ judge sc evs ++ judgePuts sc evs ++ judgeReplayFlush sc evs
       (v.1, if viol.isEmpty then "ok" else "viol " ++ " ;; ".intercalate viol)
     | _ => ("bad-observation", "bad-observation")
   | none => ("bad-args", "bad-args")
